@@ -150,7 +150,7 @@ Example C20_ex_history :
   = [Ok [2; 1]; Ok [2; 3; 1]; Cycle [1; 2]].
 Proof. vm_compute. reflexivity. Qed.
 Example C20_ex_graph_history :
-  grun (fun l => l) [] [GDep 1 2; GSort [1]; GDep 2 3; GSort [1]; GDeps 1 [3]; GSort [1]]
+  grun (fun l => l) [] [GDep 1 2; GSort [1]; GDep 2 3; GNote 2 true; GSort [1]; GDeps 1 [3]; GSort [1]]
   = [Some [2; 1]; Some [3; 2; 1]; Some [3; 1]].
 Proof. vm_compute. reflexivity. Qed.
 
